@@ -230,13 +230,32 @@ def rule_set_err_atomic(ctx):
 
 def rule_guards(ctx):
     R = "C17.5"
-    ctx.rule(R, "guards: dropping the TerminateGuard sends `terminated`; dropping the CancelGuard cancels the scope context")
+    ctx.rule(R, "guards: dropping the TerminateGuard sends `terminated` and dropping the CancelGuard cancels the scope context, on every path; dropping an undefused must-complete guard (a scope future abandoned before completion) aborts the process on every path")
+    def always(d, suffix):
+        """the call is made on every path through d that returns"""
+        bbs = [c["bb"] for c in ctx.T(d).calls() if c["q"].endswith(suffix)]
+        cfg = ctx.cfg(d, with_cancel=False)
+        return bool(bbs) and all(cfg.must_pass_blocks(r, set(bbs)) for r in cfg.returns())
     d = ctx.fn("<%s as std::ops::Drop>::drop" % TG)
-    ok = any(c["q"].endswith("signal::Once::send") for c in ctx.T(d).calls())
-    ctx.ob(R, "TerminateGuard::drop", ok, "sends the terminated signal" if ok else "TerminateGuard::drop does not send `terminated`", d.loc())
+    ok = always(d, "signal::Once::send")
+    ctx.ob(R, "TerminateGuard::drop", ok, "sends the terminated signal on every path" if ok else "TerminateGuard::drop does not (always) send `terminated`: Scope::run waits for that signal forever or returns without it", d.loc())
     d = ctx.fn("<%s as std::ops::Drop>::drop" % CG)
-    ok = any(c["q"].endswith("ctx::Ctx::cancel") for c in ctx.T(d).calls())
-    ctx.ob(R, "CancelGuard::drop", ok, "cancels the scope context" if ok else "CancelGuard::drop does not cancel the context", d.loc())
+    ok = always(d, "ctx::Ctx::cancel")
+    ctx.ob(R, "CancelGuard::drop", ok, "cancels the scope context on every path" if ok else "CancelGuard::drop does not (always) cancel the context: the scope is not cancelled when all main tasks have completed", d.loc())
+    # the must-complete guard is what makes `scope::run!` non-droppable: a scope future dropped before completion - by
+    # select!, by an aborted task, or by a panic unwinding through its owner - would leave the spawned tasks running
+    # with nobody joining them. Its Drop therefore never returns: every path ends in process::abort.
+    MC = "zksync_concurrency::scope::must_complete::Guard"
+    d = ctx.fn("<%s as std::ops::Drop>::drop" % MC)
+    cfg = ctx.cfg(d, with_cancel=False)
+    aborts = [c["bb"] for c in ctx.T(d).calls() if c["q"] in ("std::process::abort", "std::intrinsics::abort")]
+    rets = cfg.returns()
+    ok = bool(aborts) and any(cfg.reachable[b] for b in aborts) and not rets
+    ctx.ob(R, "must_complete::Guard::drop", ok, "dropping an undefused guard aborts the process unconditionally (the function has no returning path)" if ok else
+           ("must_complete::Guard::drop can return without aborting (%d returning path(s)): a scope::run! future dropped on that path is left with its tasks still running and unjoined" % len(rets) if aborts else
+            "must_complete::Guard::drop does not abort the process"), d.loc())
+    run_guard = [f for f in ctx.F.fns if not f.in_testonly() and f.crate == "zksync_concurrency" and any(c["q"].endswith("must_complete::Guard::defuse") for c in ctx.T(f).calls())]
+    ctx.floor(R, "functions holding a must-complete guard", len(run_guard), 1)
     # task kinds hold the right guard
     a = ctx.F.adts.get(TASK)
     if a:
